@@ -347,15 +347,26 @@ func (c *c14Comp) stateOracle() []string {
 	return orc
 }
 
-type c14Snap map[reassemblyKey]struct{}
+// c14Snap is the key set of the table before/after one datagram. Copying 4096 keys per datagram while a
+// table is being filled dominates the run time, so between 256 entries and (cap - 8) only the size is
+// recorded ("light"): an eviction there would show up as a divergence from the model (which is told "-").
+type c14Snap struct {
+	keys  map[reassemblyKey]struct{}
+	n     int
+	light bool
+}
 
 func (c *c14Comp) snapshot() c14Snap {
 	g := c.rx
 	g.mu.Lock()
 	defer g.mu.Unlock()
-	s := make(c14Snap, len(g.reassembly))
+	n := len(g.reassembly)
+	if n > 256 && n < geckoMaxReassembly-8 {
+		return c14Snap{n: n, light: true}
+	}
+	s := c14Snap{keys: make(map[reassemblyKey]struct{}, n), n: n}
 	for k := range g.reassembly {
-		s[k] = struct{}{}
+		s.keys[k] = struct{}{}
 	}
 	return s
 }
@@ -532,10 +543,10 @@ func (c *c14Comp) feed(pcap int, ds []c14Dgram) vh.Result {
 		if _, _, _, _, ok := c14Parse(d.data); ok {
 			continue
 		}
-		same := len(snaps[j]) == len(snaps[j+1])
-		if same {
-			for k := range snaps[j] {
-				if _, ok := snaps[j+1][k]; !ok {
+		same := snaps[j].n == snaps[j+1].n
+		if same && !snaps[j].light && !snaps[j+1].light {
+			for k := range snaps[j].keys {
+				if _, ok := snaps[j+1].keys[k]; !ok {
 					same = false
 					break
 				}
@@ -549,13 +560,13 @@ func (c *c14Comp) feed(pcap int, ds []c14Dgram) vh.Result {
 	fields := make([]string, n)
 	for j, d := range ds {
 		tie := "-"
-		if j+1 < len(snaps) {
+		if j+1 < len(snaps) && !snaps[j].light && !snaps[j+1].light {
 			own := reassemblyKey{addr: c14Addr(d.src).String()}
 			if len(d.data) > 1 {
 				own.msgID = d.data[1]
 			}
-			for k := range snaps[j] {
-				if _, still := snaps[j+1][k]; !still && k != own {
+			for k := range snaps[j].keys {
+				if _, still := snaps[j+1].keys[k]; !still && k != own {
 					tie = fmt.Sprintf("%d:%d", c14SrcOf(k.addr), k.msgID)
 					break
 				}
@@ -1455,6 +1466,70 @@ func c14GenGlobal(r *vh.RNG, emit c14Emit) {
 	emit("dump", "dump")
 }
 
+// selfevict: the table is filled to the global cap while the OLDEST entries belong to sources that are
+// below their own cap; those sources then open new messages, so that evictOldestLocked removes an entry
+// of the very source that is inserting (several rounds, one source owning a single entry, ties or not),
+// followed by completion of the new messages and expiry of everything (no counter may stay behind).
+func c14GenSelfEvict(r *vh.RNG, emit c14Emit) {
+	emit("reset 512 1200", "reset")
+	type ref struct{ src, mid, total int }
+	chunk := func(x ref, i int) []byte { return []byte{byte(x.src), byte(x.src >> 8), byte(x.mid), byte(i)} }
+	frame := func(x ref, i int) string { return c14Dg(x.src, c14Frame(0x80, x.mid, i, x.total, nil, chunk(x, i))) }
+	// old sources: how many entries each owns before the fill (all below geckoMaxPerSource)
+	olds := []struct{ src, n int }{{9001, r.Range(2, 4)}, {9002, 1}, {9003, geckoMaxPerSource - 1}, {9004, r.Range(1, 3)}}
+	spaced := r.Bool() // distinct deadlines, or ties among the entries of one source
+	count := 0
+	for _, o := range olds {
+		for j := 0; j < o.n; j++ {
+			emit("rx 4096 "+frame(ref{o.src, j, 2}, 0), "selfevict-old")
+			count++
+			if spaced {
+				emit("adv 1000", "selfevict-adv")
+			}
+		}
+		emit("adv 1000", "selfevict-adv") // sources are strictly ordered by age; within one source ties are allowed
+	}
+	emit("adv 1000000", "selfevict-adv")
+	// fill to exactly the global cap with younger entries of other sources
+	var parts []string
+	for s := 1; count < geckoMaxReassembly; s++ {
+		for j := 0; j < geckoMaxPerSource && count < geckoMaxReassembly; j++ {
+			parts = append(parts, frame(ref{s, (s + j) % 256, 2 + (s+j)%7}, 0))
+			count++
+			if len(parts) == 32 {
+				emit("rx 4096 "+strings.Join(parts, " "), "selfevict-fill")
+				parts = nil
+			}
+		}
+	}
+	if len(parts) > 0 {
+		emit("rx 4096 "+strings.Join(parts, " "), "selfevict-fill")
+	}
+	// rounds: each old source opens new messages; every admission evicts the oldest entry — its own
+	var fresh []ref
+	for _, o := range olds { // in age order: the inserting source owns the oldest entries of the table
+		for j := 0; j < o.n; j++ {
+			x := ref{o.src, 100 + j, 2}
+			fresh = append(fresh, x)
+			emit("rx 4096 "+frame(x, 0), "selfevict-round")
+		}
+	}
+	// one more source at its cap must be refused, a new source is admitted (evicting someone else's entry)
+	emit("rx 4096 "+frame(ref{1, 200, 2}, 0), "selfevict-refused")
+	emit("rx 4096 "+frame(ref{9100, 1, 2}, 0), "selfevict-other")
+	// complete some of the new messages, then let everything expire: no perSource record may remain
+	for _, x := range fresh {
+		if r.Chance(1, 2) {
+			p := append(chunk(x, 0), chunk(x, 1)...)
+			emit(fmt.Sprintf("sent %d %d %d %s", x.src, x.mid, x.total, vh.Hex(p)), "sent")
+			emit("rx 4096 "+frame(x, 1), "selfevict-complete")
+		}
+	}
+	emit("adv 4000000000", "selfevict-adv")
+	emit("adv 8000000001", "selfevict-adv")
+	emit("dump", "dump")
+}
+
 // wrap: one real sender writes more than 256 packets (the 8-bit id wraps); some messages stay
 // incomplete, so that a later message with the same id may meet them.
 func c14GenWrap(r *vh.RNG, emit c14Emit, count int) {
@@ -1481,11 +1556,13 @@ func (c *c14Comp) Gen(r *vh.RNG, n int, emit func(op string, tags ...string)) {
 		emit(op, tags...)
 	}
 	if n >= 3000 {
+		c14GenSelfEvict(r.Fork(), em)
 		c14GenGlobal(r.Fork(), em)
 		c14GenWrap(r.Fork(), em, 300)
 	}
 	if n >= 50000 {
 		for i := 0; i < 3; i++ {
+			c14GenSelfEvict(r.Fork(), em)
 			c14GenGlobal(r.Fork(), em)
 			c14GenWrap(r.Fork(), em, 600)
 		}
